@@ -1,5 +1,6 @@
 import SteelVerif.C14.Props
 open SteelVerif.C14
+#print axioms model_constants_match_source
 #print axioms mangle_injective
 #print axioms mangle_not_user_writable
 #print axioms privates_disjoint
